@@ -115,14 +115,77 @@ def _data_names(mod):
     ]
 
 
+# Per-process state that lives ON function objects rather than in module
+# dictionaries: function attributes (`f.cache = {}`) and mutable default
+# arguments (`def f(x, _memo={})`).  After a fork every process has its own
+# copy of those too.  They are tracked for the functions (module level and
+# methods of classes) defined in the modules whose code the simulated workers
+# execute (FUNC_STATE_MODULES); everything else on the interpreter (state inside
+# numpy/scipy, functools.lru_cache objects) stays shared - the stated trusted
+# base, guarded by the real-pool cross-check.
+
+FUNC_STATE_MODULES = ("pyyeti.srs", "pyyeti.fdepsd", "pyyeti.cyclecount", "pyyeti.dsp", "pyyeti.psd", "pyyeti.ytools", "pyyeti.locate")
+_IMMUTABLE_DEFAULT = (type(None), bool, int, float, complex, str, bytes, frozenset, types.FunctionType, types.BuiltinFunctionType, type, types.ModuleType)
+_func_lists = {}
+
+
+def _functions_of(mod):
+    """Functions defined in `mod` (module level and in its classes); cached by module size."""
+    md = vars(mod)
+    ent = _func_lists.get(mod.__name__)
+    if ent is not None and ent[0] == len(md):
+        return ent[1]
+    out = []
+    for v in md.values():
+        if isinstance(v, types.FunctionType):
+            if v.__module__ == mod.__name__:
+                out.append(v)
+        elif isinstance(v, type) and v.__module__ == mod.__name__:
+            for a in vars(v).values():
+                a = getattr(a, "__func__", a)
+                if isinstance(a, types.FunctionType):
+                    out.append(a)
+    _func_lists[mod.__name__] = (len(md), out)
+    return out
+
+
+def _mutable_defaults(f):
+    d = f.__defaults__
+    if d and any(not isinstance(x, _IMMUTABLE_DEFAULT) and not (isinstance(x, tuple) and not x) for x in d):
+        return True
+    kd = f.__kwdefaults__
+    return bool(kd) and any(not isinstance(x, _IMMUTABLE_DEFAULT) for x in kd.values())
+
+
+def _func_state(f):
+    """(attribute dict, defaults, kwdefaults) of a function if it carries state, else None."""
+    fd = f.__dict__
+    md = _mutable_defaults(f)
+    if not fd and not md:
+        return None
+    return (fd, f.__defaults__ if md else None, f.__kwdefaults__ if md else None)
+
+
 class GlobalsImage:
-    """Data globals of every loaded pyyeti.* module, as one process sees them."""
+    """Data globals of every loaded pyyeti.* module (and the state carried by
+    function objects of the worker modules), as one process sees them."""
 
     def __init__(self, mods, stub_names):
         self.mods = mods
         self.stub_names = stub_names
         self.vals = []
         self.sizes = [0] * len(mods)
+        self.fmods = [m for m in mods if m.__name__ in FUNC_STATE_MODULES or getattr(m, "__simmp_func_state__", False)]
+        self.fstate = {}  # function -> (attr dict, defaults, kwdefaults)
+
+    def _read_fstate(self):
+        fs = {}
+        for m in self.fmods:
+            for f in _functions_of(m):
+                stt = _func_state(f)
+                if stt is not None:
+                    fs[f] = stt
+        self.fstate = fs
 
     @classmethod
     def capture(cls, mods, stub_names):
@@ -133,11 +196,13 @@ class GlobalsImage:
                 {k: md[k] for k in _data_names(m) if (m.__name__, k) not in stub_names}
             )
             img.sizes[i] = len(md)
+        img._read_fstate()
         return img
 
     def forked(self):
         img = GlobalsImage(self.mods, self.stub_names)
         img.vals = [{k: _fork_copy(v) for k, v in d.items()} for d in self.vals]
+        img.fstate = {f: (_fork_copy(fd), None if dflt is None else _fork_copy(dflt), None if kd is None else _fork_copy(kd)) for f, (fd, dflt, kd) in self.fstate.items()}
         return img
 
     def refresh(self):
@@ -154,6 +219,7 @@ class GlobalsImage:
                 for k in _data_names(m):
                     if k not in d and (m.__name__, k) not in self.stub_names:
                         d[k] = md[k]
+        self._read_fstate()
 
 
 def switch_images(out, in_):
@@ -167,6 +233,17 @@ def switch_images(out, in_):
                 del md[k]
         md.update(tgt)
         in_.sizes[i] = len(md)
+    if out.fstate or in_.fstate:
+        tgt = in_.fstate
+        for f in out.fstate:
+            if f not in tgt:
+                f.__dict__ = {}  # this process never set anything on f
+        for f, (fd, dflt, kd) in tgt.items():
+            f.__dict__ = fd
+            if dflt is not None:
+                f.__defaults__ = dflt
+            if kd is not None:
+                f.__kwdefaults__ = kd
 
 
 # ------------------------------------------------------------------ scheduler
